@@ -1020,11 +1020,24 @@ class PendingFunctionDef(_PendingCompoundStmt[FunctionDef]):
                 keywords=[],
             )
 
-        if self.internal_nsp.is_method and self.node.name == "__init_subclass__":
-            # We need to add a @classmethod for __init_subclass__
-            # that's really weird, but really solves problem
+        # When a class is created, `__init_subclass__` and `__class_getitem__`
+        # are wrapped with classmethod, `__new__` is wrapped with staticmethod implicitly.
+        # The converted class is created before its methods, so they are wrapped here.
+        implicit_wrapper = {
+            "__init_subclass__": "classmethod",
+            "__class_getitem__": "classmethod",
+            "__new__": "staticmethod",
+        }.get(self.node.name)
+        if (
+            self.internal_nsp.is_method
+            and implicit_wrapper is not None
+            and not any(
+                isinstance(dec_expr, Name) and dec_expr.id == implicit_wrapper
+                for dec_expr in self.node.decorator_list
+            )
+        ):
             body_expr = Call(
-                func=Name(id="classmethod", ctx=Load()),
+                func=Name(id=implicit_wrapper, ctx=Load()),
                 args=[body_expr],
                 keywords=[],
             )
